@@ -132,6 +132,6 @@ def subchecks():
             name="forms",
             run_case=run_case,
             strategy=lambda tier: ruleforms.form_case(tier),
-            examples={"quick": 6000, "thorough": 120000},
+            examples={"quick": 6000, "thorough": 600000},
         )
     ]
